@@ -634,7 +634,24 @@ pub fn judge_update(s: &Session, msg: &Message, fixed_point: bool) -> (Vec<Findi
     // LOCAL_PREF, ORIGINATOR_ID) that was decoded from a wire form carrying
     // the extended-length flag is re-encoded with that flag and a one-octet
     // length.  Every symptom of such an input is reported under one signature.
-    let poisoned = u.reach.as_ref().is_some_and(|(_, a)| a.iter().any(|x| x.value().is_some() && x.flags() & 0x10 != 0));
+    // The mechanism is confirmed on the wire itself: flags-with-0x10, code, a
+    // ONE-octet length (1 or 4) and the value.
+    let poisoned = u.reach.as_ref().is_some_and(|(_, a)| {
+        a.iter().any(|x| {
+            let Some(v) = x.value() else { return false };
+            if x.flags() & 0x10 == 0 {
+                return false;
+            }
+            let mut pat = vec![x.flags(), x.code()];
+            if x.code() == Attribute::ORIGIN {
+                pat.extend_from_slice(&[1, v as u8]);
+            } else {
+                pat.push(4);
+                pat.extend_from_slice(&v.to_be_bytes());
+            }
+            enc.bytes.windows(pat.len()).any(|w| w == pat.as_slice())
+        })
+    });
     if poisoned {
         let (mut fs2, obs2) = judge_update_inner(s, msg, fixed_point, enc, frames, split_err, walked, walk_err, section_err, wire, per_frame, lost_idx, dup, alien, obs);
         if !fs2.is_empty() {
